@@ -94,6 +94,36 @@ func TestVerifReplay(t *testing.T) {
     else:
         ck.record('test_private_key_lengths', 'proved', 'shorter encodings accepted iff non-zero, longer ones refused with the length difference')
 
+    # coordinate decoding on the real code (the contract the on-curve test relies on): canonical values only
+    okd, detail, wit = setbytes_obligation(prog, ck, 'SM2Element', P, 'sm2')
+    if okd is True:
+        ck.record('coordinate_decoding', 'proved', detail + ' (real fiat.SM2Element.SetBytes, all 2^256 strings)')
+    elif okd == 'cex':
+        wv = wit if wit is not None else list((P).to_bytes(32, 'big'))
+        val = int.from_bytes(bytes(wv), 'big')
+        # a non-canonical x whose reduction is on the curve shows up in CheckOnCurve: use x = p + small with a square right-hand side
+        xs = 1
+        while True:
+            rhs = (xs ** 3 - 3 * xs + ref.B) % P
+            ys = pow(rhs, (P + 1) // 4, P)
+            if ys * ys % P == rhs and xs + P < 2 ** 256:
+                break
+            xs += 1
+        src = '''package sm2
+import "testing"
+func TestVerifReplay(t *testing.T) {
+	if CheckOnCurve(%s, %s) { t.Fatalf("non-canonical coordinate x = p + %d accepted") }
+	if CheckOnCurve(%s, %s) { t.Fatalf("coordinate >= p accepted") }
+}''' % (go_bytes(b32(xs + P)), go_bytes(b32(ys)), xs, go_bytes(wv), go_bytes(b32(1)))
+        ok, out, path = ck.go_test('sm2', src, name='noncanonical')
+        if ok is False:
+            ck.record('coordinate_decoding', 'violated', detail, sample=dict(x=hex(xs + P)))
+            ck.violation('CheckOnCurve.noncanonical', 'coordinates >= p are accepted (decoded modulo p)', path)
+        else:
+            ck.encoder_mismatch('coordinate_decoding', detail)
+    else:
+        ck.record('coordinate_decoding', 'inconclusive', detail)
+
     # ------------------------------------------------------------ 2. GenerateKey / DerivePublic under contracts
     eng = proto_engine(prog)
     maxc = 3 if thorough else 2
